@@ -1,6 +1,7 @@
 package main
 
 import (
+	"fmt"
 	"go/ast"
 	"go/types"
 	"math/big"
@@ -127,6 +128,15 @@ func sameShape(a, b []FmtPart) bool {
 func (x *Exec) widthObligations(ps []FmtPart, st *State) {
 	for _, p := range ps {
 		if p.Num != nil && p.Width > 0 && !p.Num.isConst() {
+			// the same field proved in range earlier on this path need not be proved again
+			key := fmt.Sprintf("%d/%d", p.Num.id, p.Width)
+			if prev, ok := x.widthDone[key]; ok && isPrefix(prev, st.pc) {
+				continue
+			}
+			if x.widthDone == nil {
+				x.widthDone = map[string][]*Term{}
+			}
+			x.widthDone[key] = append([]*Term(nil), st.pc...)
 			x.oblige("fmtwidth", st, mkAnd(mkLe(mkInt(0), p.Num), mkLt(p.Num, pow10(p.Width))), nil, "zero-padded field fits its width (so string order is numeric order)")
 		}
 	}
@@ -186,14 +196,17 @@ func (x *Exec) strCompare(a, b *StrV, st *State) *Term {
 	}
 	x.widthObligations(pa, st)
 	x.widthObligations(pb, st)
-	res := mkInt(0)
-	for i := len(pa) - 1; i >= 0; i-- {
+	// Every numeric field fits its width (obligations above), so the lexicographic order of the two strings is the
+	// numeric order of the keys sum(field_i * 10^(total width of the later fields)).
+	ka, kb := mkInt(0), mkInt(0)
+	for i := range pa {
 		if pa[i].Num == nil {
 			continue
 		}
-		res = mkIte(mkLt(pa[i].Num, pb[i].Num), mkInt(-1), mkIte(mkGt(pa[i].Num, pb[i].Num), mkInt(1), res))
+		ka = mkAdd(mkMul(ka, pow10(pa[i].Width)), pa[i].Num)
+		kb = mkAdd(mkMul(kb, pow10(pb[i].Width)), pb[i].Num)
 	}
-	return res
+	return mkIte(mkLt(ka, kb), mkInt(-1), mkIte(mkGt(ka, kb), mkInt(1), mkInt(0)))
 }
 
 func (x *Exec) strEqual(a, b *StrV) *Term {
@@ -541,8 +554,12 @@ func (x *Exec) sprintf(call *ast.CallExpr, st *State) Value {
 			if width > 0 && !zero {
 				return &StrV{Opaque: true, Tag: "Sprintf-space-pad"}
 			}
-			if v.T.isConst() && width == 0 {
-				parts = append(parts, FmtPart{Lit: v.T.Int.String()})
+			if v.T.isConst() && (width == 0 || v.T.Int.Sign() >= 0) {
+				d := v.T.Int.String()
+				for len(d) < width {
+					d = "0" + d
+				}
+				parts = append(parts, FmtPart{Lit: d})
 			} else {
 				parts = append(parts, FmtPart{Num: v.T, Width: width})
 			}
@@ -683,7 +700,197 @@ func (x *Exec) stringsFn(name string, call *ast.CallExpr, st *State) Value {
 	return nil
 }
 
-// shapeHook: fields whose shape (not content) is fixed by construction; see DESIGN 2.2. Returns nil when no hook applies.
+// shapeHook: fields whose shape (not content) is fixed by construction, as declared by `shape` clauses of the
+// owner's type declaration. The shape is proved where the object is built (obligation kind "shape") or, for
+// trusted constructors, checked by the bounded stand-in named there.
 func shapeHook(x *Exec, owner *types.Named, f *types.Var, name string, depth int, st *State, input bool) Value {
+	d := x.typeInvDecl(owner)
+	if d == nil {
+		return nil
+	}
+	for _, c := range d.Shapes {
+		fs := strings.Fields(c.Text)
+		if len(fs) < 3 || fs[0] != f.Name() {
+			continue
+		}
+		switch fs[1] {
+		case "list":
+			n := 0
+			fmt.Sscan(fs[2], &n)
+			et := x.lookupTypeExpr(x.w.Pkgs[d.Pkg], fs[3])
+			l := &ListV{}
+			for i := 0; i < n; i++ {
+				l.Elems = append(l.Elems, &BoxV{V: x.freshValue(fmt.Sprintf("%s[%d]", name, i), et, depth, st, input), T: et})
+			}
+			return l
+		case "slice":
+			n := 0
+			fmt.Sscan(fs[2], &n)
+			sl, ok := f.Type().Underlying().(*types.Slice)
+			if !ok {
+				unsup("shape slice on non-slice field %s", f.Name())
+			}
+			sv := &SliceV{ElemT: sl.Elem()}
+			for i := 0; i < n; i++ {
+				sv.Elems = append(sv.Elems, x.freshValue(fmt.Sprintf("%s[%d]", name, i), sl.Elem(), depth, st, input))
+			}
+			return sv
+		case "mapkeys":
+			mt, ok := f.Type().Underlying().(*types.Map)
+			if !ok {
+				unsup("shape mapkeys on non-map field %s", f.Name())
+			}
+			keys := x.stringTable(x.w.Pkgs[d.Pkg], fs[2])
+			mv := &MapV{ValT: mt.Elem()}
+			for i, k := range keys {
+				mv.Keys = append(mv.Keys, k)
+				mv.Vals = append(mv.Vals, x.freshValue(fmt.Sprintf("%s[%d]", name, i), mt.Elem(), depth, st, input))
+			}
+			return mv
+		case "strlist":
+			keys := x.stringTable(x.w.Pkgs[d.Pkg], fs[2])
+			l := &ListV{}
+			for _, k := range keys {
+				l.Elems = append(l.Elems, &BoxV{V: litStr(k), T: types.Typ[types.String]})
+			}
+			return l
+		}
+	}
 	return nil
+}
+
+func (x *Exec) lookupTypeExpr(pk *Pkg, s string) types.Type {
+	ptr := strings.HasPrefix(s, "*")
+	n := strings.TrimPrefix(s, "*")
+	if n == "string" {
+		return types.Typ[types.String]
+	}
+	obj := pk.Types.Scope().Lookup(n)
+	if obj == nil {
+		unsup("shape: unknown type %s", s)
+	}
+	if ptr {
+		return types.NewPointer(obj.Type())
+	}
+	return obj.Type()
+}
+
+func (x *Exec) stringTable(pk *Pkg, name string) []string {
+	obj, ok := pk.Types.Scope().Lookup(name).(*types.Var)
+	if !ok {
+		unsup("shape: unknown table %s", name)
+	}
+	v := x.pkgVar(obj)
+	sv, ok := v.(*SliceV)
+	if !ok {
+		unsup("shape: %s is not a slice", name)
+	}
+	var out []string
+	for _, e := range sv.Elems {
+		s, ok := e.(*StrV).isLit()
+		if !ok {
+			unsup("shape: %s has non-literal entries", name)
+		}
+		out = append(out, s)
+	}
+	return out
+}
+
+// checkShape: obligations that a constructed field value has its declared shape.
+func (x *Exec) checkShape(owner *types.Named, field string, v Value, st *State, at ast.Node) {
+	d := x.typeInvDecl(owner)
+	if d == nil {
+		return
+	}
+	for _, c := range d.Shapes {
+		fs := strings.Fields(c.Text)
+		if len(fs) < 3 || fs[0] != field {
+			continue
+		}
+		ok := false
+		switch fs[1] {
+		case "list":
+			n := 0
+			fmt.Sscan(fs[2], &n)
+			if l, isL := v.(*ListV); isL && !l.Nil && len(l.Elems) == n && l.allPresent() {
+				ok = true
+				et := x.lookupTypeExpr(x.w.Pkgs[d.Pkg], fs[3])
+				for _, e := range l.Elems {
+					if b, isB := e.(*BoxV); !isB || !types.Identical(b.T, et) {
+						ok = false
+					}
+				}
+			}
+		case "slice":
+			n := 0
+			fmt.Sscan(fs[2], &n)
+			if sl, isS := v.(*SliceV); isS && len(sl.Elems) == n {
+				ok = true
+			}
+		case "mapkeys":
+			keys := x.stringTable(x.w.Pkgs[d.Pkg], fs[2])
+			if m, isM := v.(*MapV); isM && len(m.Keys) == len(uniqueStrings(keys)) {
+				ok = true
+				have := map[string]bool{}
+				for _, k := range m.Keys {
+					have[k] = true
+				}
+				for _, k := range keys {
+					if !have[k] {
+						ok = false
+					}
+				}
+				for _, mv := range m.Vals {
+					if sv, isSt := mv.(*StructV); isSt {
+						x.oblige("shape", st, mkNot(sv.Nil), at, "map value of "+field+" is not nil")
+					}
+				}
+			}
+		case "strlist":
+			keys := x.stringTable(x.w.Pkgs[d.Pkg], fs[2])
+			if l, isL := v.(*ListV); isL && !l.Nil && len(l.Elems) == len(keys) && l.allPresent() {
+				ok = true
+				for i, e := range l.Elems {
+					b, isB := e.(*BoxV)
+					if !isB {
+						ok = false
+						continue
+					}
+					sv, isS := b.V.(*StrV)
+					if !isS {
+						ok = false
+						continue
+					}
+					if lit, isLit := sv.isLit(); !isLit || lit != keys[i] {
+						ok = false
+					}
+				}
+			}
+		}
+		x.oblige("shape", st, mkBool(ok), at, "field "+field+" has shape: "+c.Text)
+	}
+}
+
+func uniqueStrings(xs []string) []string {
+	m := map[string]bool{}
+	var out []string
+	for _, s := range xs {
+		if !m[s] {
+			m[s] = true
+			out = append(out, s)
+		}
+	}
+	return out
+}
+
+func isPrefix(a, b []*Term) bool {
+	if len(a) > len(b) {
+		return false
+	}
+	for i := range a {
+		if a[i] != b[i] {
+			return false
+		}
+	}
+	return true
 }
